@@ -105,7 +105,15 @@ def run(data):
             if op in OPS:
                 r = mk(c["r"]); rec["r"] = canon(r)
                 rec["res"] = canon(OPS[op](l, r))
-            elif op == "pow": rec["res"] = canon(l ** c["r"])
+            elif op == "pow":
+                if c.get("refused_first"):
+                    # the same power written as a float and as a Decimal first (both are refused: exponents are integers)
+                    for bad in (float(c["r"]), Decimal(c["r"])):
+                        try: l ** bad
+                        except TypeError: pass
+                        try: l.unit ** bad
+                        except TypeError: pass
+                rec["res"] = canon(l ** c["r"])
             elif op == "root": rec["res"] = canon(l.root(c["r"]))
             elif op == "neg": rec["res"] = canon(-l)
             elif op == "pos": rec["res"] = canon(+l)
